@@ -202,12 +202,14 @@ func (l *Lexer) identifier() Token {
 }
 
 func (l *Lexer) number() Token {
-	for !l.atEnd() {
-		r := rune(l.peek())
-		if unicode.IsDigit(r) || r == '-' || r == '.' {
+	for !l.atEnd() && unicode.IsDigit(rune(l.peek())) {
+		l.advance()
+	}
+	// optional fraction: a '.' followed by at least one digit
+	if l.peek() == '.' && l.pos+1 < len(l.src) && unicode.IsDigit(rune(l.src[l.pos+1])) {
+		l.advance()
+		for !l.atEnd() && unicode.IsDigit(rune(l.peek())) {
 			l.advance()
-		} else {
-			break
 		}
 	}
 	return l.stringToken(Num, l.pos-l.tokenStart)
